@@ -43,10 +43,11 @@ theorem fanout_flow :
     connection with swap-remove (`removeUser`, `swapRemove`), an emission snapshots the users of the
     signal under the read lock and sends one event to each (`recipients`, `emit`) -/
 theorem server_table_flows :
-    (Gen.Signals.addSignalUserFlow.drop 7) =
+    Gen.Signals.addSignalUserFlow =
       ["signalsMutex.Lock", "range signals {", "if user.userID == userID {", "signalsMutex.Unlock",
-       "call user.context.EndPoint().RemoveHandler", "return fmt.Errorf(\"user %d already exists\", use…", "}", "}",
-       "use signals", "call append", "assign signals", "signalsMutex.Unlock", "return nil"] ∧
+       "return fmt.Errorf(\"user %d already exists\", use…", "}", "}", "signalsMutex.Unlock",
+       "func{", "return false, true", "}", "func{", "call o.removeSignalUser", "}", "call e.MakeHandler",
+       "signalsMutex.Lock", "use signals", "call append", "assign signals", "signalsMutex.Unlock", "return nil"] ∧
     Gen.Signals.removeSignalUserFlow =
       ["signalsMutex.Lock", "range signals {", "if user.userID == userID {",
        "if from.EndPoint() == user.context.EndPoint() {",
